@@ -467,7 +467,38 @@ def r8_queue_fits_one_tick(ctx):
                % (vals, TICK, per_conn))
 
 
+def r9_the_socket_served_is_the_socket_accepted(ctx):
+    ctx.rule('C16.R9', 'P7 provenance (second necessary condition for "requests queued at a worker are served", next to C16.R7): the stream handed to hyper '
+             '(`serve_connection`) in the serve function is the accepted `TcpStream` of the connection message, wrapped by the I/O adaptor and otherwise only '
+             'moved. A socket that is re-registered on the way (`into_std` / `from_std`, a new `TcpSocket`) has lost its readiness: its first read is '
+             'Pending, so the one suspension after the drain loop no longer lets the connection read the request that is already waiting, and the '
+             'shutdown signal closes it unanswered.')
+    item = serve_fn(ctx)
+    bodies = [b for b in ctx.fb.bodies_of_item(CR, item) if not b.is_promoted]
+    if not ctx.need('C16.R9', 'bodies of the serve function', bodies):
+        return
+    ALLOWED = {'new', 'into', 'from', 'into_owned', 'deref', 'deref_mut', 'as_mut', 'as_ref', 'pin', 'new_unchecked'}
+    n = 0
+    for b in bodies:
+        defs = Defs(b)
+        for bb, t in b.calls():
+            c = callee(t) or ''
+            if not c.endswith('::serve_connection') and not c.endswith('::serve_connection_with_upgrades'):
+                continue
+            n += 1
+            pl = op_place(t['args'][1]) if len(t['args']) > 1 else None
+            cs = []
+            if pl is not None:
+                sl, _ = backward_slice(b, pl['l'], defs)
+                cs = sorted({(x or '?').split('::')[-1].split('<')[0] for x, _, _ in slice_calls(sl)})
+            bad = [x for x in cs if x not in ALLOWED]
+            ctx.ob('C16.R9', 'stream-only-moved|%s' % item.split('::')[-1], not bad, b.loc(bb, t),
+                   'the I/O object served derives from the connection message through %s%s' % (cs or 'plain moves', '' if not bad else ' — not moves: %s' % bad))
+    ctx.floor('C16.R9', 'serve_connection call sites', n, 1)
+
+
 def check(ctx):
+    r9_the_socket_served_is_the_socket_accepted(ctx)
     r1_acceptor(ctx)
     r2_worker(ctx)
     r3_tracked(ctx)
